@@ -3,6 +3,7 @@ import LoraVerif.Model.MacCmdFields
 import LoraVerif.Spec.MacCmdSpec
 import LoraVerif.Lemmas.MacCmdIter
 import LoraVerif.Lemmas.MacCmdAccessors
+import LoraVerif.Lemmas.FrameShapeLemmas
 /-!
 # C03 — parsing arbitrary bytes is total, bounds-safe and terminating
 
@@ -167,6 +168,12 @@ theorem six_sets_total (s : String × List Gen.CmdTables.Row) (hs : s ∈ Gen.Cm
   obtain ⟨r, h, ok⟩ := run_ok (vl_total s hs) data
   exact ⟨r, h, ok.no_hang, ok.prefix_eq, ok.fused⟩
 
+/-- every entry of the six generated tables gives its payload type at least the number of octets its
+accessors reach (`need`, proved sufficient per payload type in `Lemmas/MacCmdAccessors`); a
+variable-length payload is never empty -/
+theorem accessor_reach_within_len : ∀ s ∈ Gen.CmdTables.allSets, ∀ r ∈ s.2,
+    need r.2.2.2 ≤ (match r.2.1 with | some l => l | none => 1) := by decide
+
 /-- **accessors_no_panic.** Every accessor of every command the iterators of the six sets can yield returns
 without panicking (all indices are below the generated length; `u32` products do not overflow; the
 `unreachable!()` arms are unreachable), for every cipher plugged into the key accessor. -/
@@ -181,7 +188,7 @@ theorem accessors_no_panic (cph : Cipher) (s : String × List Gen.CmdTables.Row)
   have hmem := (Table.lookup_mem h2).1
   simp only [T, Table.ofRows, List.mem_map] at hmem
   obtain ⟨row, hrow, rfl⟩ := hmem
-  have hneed := tables_cover_need s hs row hrow
+  have hneed := accessor_reach_within_len s hs row hrow
   refine accessors_ok cph c.payloadTy c.payload ?_ (run_payload_isBytes ok hb c hc)
   rw [h4]
   simp only [Entry.ofRow] at h5 h6 ⊢
@@ -192,6 +199,126 @@ theorem accessors_no_panic (cph : Cipher) (s : String × List Gen.CmdTables.Row)
     obtain ⟨rest, _, hv⟩ := h6 hl
     have := varLen_pos hv
     simp at hneed; omega
+
+/-! ## Part 2: the frame parsers of parser.rs (structural model `Model/FrameShape.lean`)
+
+`∃ r, f b = .ok r` is "does not panic" (`Outcome.panic` is the only other constructor). -/
+section Frames
+open FrameShape
+
+/-- **EncryptedDataPayload::parse** (`Layout::validate`) returns for every byte string, and every accessor of the
+view it yields (`fhdr`, `dev_addr`, `fctrl`, `fcnt`, `f_opts`, `f_port`, `mic`, the slices of `validate_mic`,
+`frm_payload`'s range) returns as well. -/
+theorem data_parse_no_panic (b : Bytes) :
+    ∃ r, validate b = .ok r ∧ ∀ l, r = .ok l → ∃ v, dataAccessors b l = .ok v := by
+  obtain ⟨r, hr, hok⟩ := validate_total b
+  exact ⟨r, hr, fun l hl => dataAccessors_total (hok l hl)⟩
+
+/-- **DecryptedDataPayload::decrypt_in_place** returns for every buffer of at most 4076 octets (every key
+combination), and every accessor of the view returned — whatever the decryption wrote into the buffer
+(`b'` of the same length) — returns.  Beyond 4076 octets the `u8` block counter of
+`encrypt_frm_data_payload` can overflow (`decrypt_ctr_overflow` below); LoRa frames are ≤ 255 octets. -/
+theorem decrypt_no_panic (b : Bytes) (hlen : b.length ≤ 4076) (hasNwk hasApp : Bool) :
+    ∃ r, decryptData b hasNwk hasApp = .ok r ∧
+      ∀ l, r = .ok l → ∀ b' : Bytes, b'.length = b.length → ∃ v, dataAccessors b' l = .ok v := by
+  obtain ⟨r, hr, hok⟩ := decryptData_total hlen hasNwk hasApp
+  refine ⟨r, hr, fun l hl b' hb' => dataAccessors_total ?_⟩
+  rw [hb']; exact hok l hl
+
+/-- the counter overflow that bounds `decrypt_no_panic`: a 4065-octet FRMPayload needs a 255th key-stream block -/
+theorem decrypt_ctr_overflow : encLoop 5000 9 4065 0 1 = .panic "encrypt_frm_data_payload: ctr += 1" := by
+  decide +kernel
+
+/-- **JoinRequestPayload::parse** and every accessor of the view -/
+theorem join_request_no_panic (b : Bytes) :
+    parseJoinRequest b = .ok () → ∃ v, joinRequestAccessors b = .ok v :=
+  fun h => joinRequestAccessors_total (parseJoinRequest_len h)
+
+/-- **EncryptedJoinAcceptPayload::parse / DecryptedJoinAcceptPayload::decrypt_in_place** and every accessor of the
+decrypted view incl. `c_f_list` (for every in-place block cipher) -/
+theorem join_accept_no_panic (c : Cipher) (hc : c.LenPres) (b : Bytes) :
+    ∃ r, decryptJoinAccept c b = .ok r ∧ ∀ b', r = .ok b' → ∃ v, joinAcceptAccessors b' = .ok v := by
+  obtain ⟨r, hr, hok⟩ := decryptJoinAccept_total hc b
+  refine ⟨r, hr, fun b' hb' => joinAcceptAccessors_total ?_⟩
+  obtain ⟨h1, h2⟩ := hok b' hb'
+  omega
+
+/-- **parse_no_panic.** `parser::parse` returns a value or an error for every byte string, and whichever view
+it returns can be used without panic: all accessors, and in-place decryption followed by all accessors. -/
+theorem parse_no_panic (b : Bytes) :
+    ∃ r, parse b = .ok r ∧
+      match r with
+      | .error _ => True
+      | .ok .joinRequest => ∃ v, joinRequestAccessors b = .ok v
+      | .ok .joinAccept => ∀ c : Cipher, c.LenPres →
+          ∃ b', decryptJoinAccept c b = .ok (.ok b') ∧ ∃ v, joinAcceptAccessors b' = .ok v
+      | .ok (.data l) => (∃ v, dataAccessors b l = .ok v) ∧
+          (b.length ≤ 4076 → ∀ n a, ∃ r', decryptData b n a = .ok r' ∧
+            ∀ l', r' = .ok l' → ∀ b' : Bytes, b'.length = b.length → ∃ v, dataAccessors b' l' = .ok v) := by
+  cases b with
+  | nil => exact ⟨_, rfl, trivial⟩
+  | cons mhdr rest =>
+    simp only [parse]
+    by_cases hv : (mhdr &&& 0b11 != 0) = true
+    · rw [if_pos hv]; exact ⟨_, rfl, trivial⟩
+    · rw [if_neg hv]
+      by_cases h0 : mhdr >>> 5 = 0
+      · rw [if_pos h0]
+        cases hj : parseJoinRequest (mhdr :: rest) with
+        | error e => exact ⟨_, rfl, trivial⟩
+        | ok u => exact ⟨_, rfl, joinRequestAccessors_total (parseJoinRequest_len hj)⟩
+      · rw [if_neg h0]
+        by_cases h1 : mhdr >>> 5 = 1
+        · rw [if_pos h1]
+          cases hj : validateJoinAccept (mhdr :: rest) with
+          | error e => exact ⟨_, rfl, trivial⟩
+          | ok u =>
+            refine ⟨_, rfl, ?_⟩
+            intro c hc
+            obtain ⟨r, hr, hok⟩ := decryptJoinAccept_total hc (mhdr :: rest)
+            have hr' := hr
+            unfold decryptJoinAccept at hr'
+            rw [hj] at hr'
+            simp only at hr'
+            generalize index _ _ _ = o at hr'
+            cases o with
+            | panic m => simp at hr'
+            | ok x =>
+              simp only [Outcome.ok_bind] at hr'
+              generalize sliceFrom _ _ _ = o at hr'
+              cases o with
+              | panic m => simp at hr'
+              | ok t =>
+                simp only [Outcome.ok_bind] at hr'
+                generalize encryptChunks _ _ _ = o at hr'
+                cases o with
+                | panic m => simp at hr'
+                | ok t' =>
+                  simp only [Outcome.ok_bind, Outcome.ok.injEq] at hr'
+                  subst hr'
+                  refine ⟨_, hr, joinAcceptAccessors_total ?_⟩
+                  obtain ⟨h1, h2⟩ := hok _ rfl
+                  omega
+        · rw [if_neg h1]
+          by_cases h5 : mhdr >>> 5 ≤ 5
+          · rw [if_pos h5]
+            obtain ⟨r, hr, hok⟩ := validate_total (mhdr :: rest)
+            simp only [hr, Outcome.ok_bind]
+            match r, hok with
+            | .error e, _ => exact ⟨_, rfl, trivial⟩
+            | .ok l, hok =>
+              refine ⟨_, rfl, dataAccessors_total (hok l rfl), ?_⟩
+              intro hlen n a
+              exact decrypt_no_panic (mhdr :: rest) hlen n a
+          · rw [if_neg h5]; exact ⟨_, rfl, trivial⟩
+
+/-! non-vacuity: the README's example uplink; an FOptsLen that does not fit; a Join-Accept with a type-1 CFList -/
+example : validate [0x40, 4, 3, 2, 1, 0x80, 1, 0, 1, 0xa6, 0x94, 0x64, 0x26, 0x15, 0xd6, 0xc3, 0xb5, 0x82] =
+    .ok (.ok { frameType := 2, fhdrLen := 7, fPortOffset := some 8, frmStart := 9, frmEnd := 14 }) := by rfl
+example : validate [0x40, 4, 3, 2, 1, 0x8f, 1, 0, 1, 2, 3, 4, 5, 6] = .ok (.error .TruncatedFhdr) := by rfl
+example : (joinAcceptAccessors (0x20 :: List.replicate 27 0 ++ [1, 9, 9, 9, 9])).isOk = true := by decide
+
+end Frames
 
 /-! ## Non-vacuity -/
 
@@ -219,4 +346,11 @@ end C03
 #print axioms C03.no_duplicate_cids
 #print axioms C03.tables_eq_spec
 #print axioms C03.six_sets_total
+#print axioms C03.accessor_reach_within_len
 #print axioms C03.accessors_no_panic
+#print axioms C03.data_parse_no_panic
+#print axioms C03.decrypt_no_panic
+#print axioms C03.decrypt_ctr_overflow
+#print axioms C03.join_request_no_panic
+#print axioms C03.join_accept_no_panic
+#print axioms C03.parse_no_panic
